@@ -283,18 +283,26 @@ class _Tags:
         self.replaced = {}  # path -> container index where it was re-created after a deletion
         self.first = {}  # path -> container index of its first creation
         self.tags = set()
+        self.boundary = set()  # the paths present at the last boundary
+
+    def fresh(self, p):
+        """p came into being in the current container (explicitly or as an intermediate group)"""
+        return self.made.get(p, -1) == self.cont or p not in self.boundary
 
     def step(self, op, ok, before):
         k = op[0]
         if k == "patch":
             self.cont += 1
+            self.boundary = set(before)
             if self.cont >= 2:
                 self.tags.add("containers>=3")
             return
+        c = self.cont
         if not ok:
             self.tags.add("err:" + k)
+            if k in ("copy", "move") and op[2] in before and op[2] in self.boundary and self.made.get(op[2], -1) != c and op[1] in before and self.fresh(op[1]):
+                self.tags.add("relocate-fresh-node-onto-node-of-older-container-refused")
             return
-        c = self.cont
         if k in ("set", "sattr"):
             tok = op[2] if k == "set" else op[3]
             if tok[0] not in "isa":
@@ -307,6 +315,8 @@ class _Tags:
                     if self.deleted[d] < c:
                         self.tags.add("delete-then-create-below-across-containers")
                     del self.deleted[d]
+            if k in ("copy", "move") and self.fresh(op[1]) and any(kd < c for d, kd in self.deleted.items() if is_pre(d, dst)):
+                self.tags.add("relocate-fresh-node-to-path-deleted-in-older-container")
             if dst in self.deleted:
                 if self.first.get(dst, c) < self.deleted[dst]:
                     self.replaced[dst] = c
@@ -700,6 +710,137 @@ def gen_focus(rng):
     return ops
 
 
+class Hist(Sim):
+    """`Sim` plus the two facts about the distribution over containers that steer `gen_relocate`: which paths are FRESH
+    (came into being since the last boundary, also implicitly as intermediate group of a longer path, also by
+    re-creation after a deletion) and which have a PAST (existed at some earlier boundary: still there, or deleted /
+    replaced since)"""
+
+    def __init__(self):
+        super().__init__()
+        self.fresh = set()
+        self.past = set()
+        self.cut = set()  # the paths named by successful deletions / moves (where a deletion was recorded)
+
+    def apply(self, op):
+        if op[0] in ("del", "move") and op[1] in self.t and (op[0] == "del" or self.can_create(op[2])):
+            self.cut.add(op[1])
+        if op[0] == "patch":
+            self.past |= set(p for p in self.t if p != "/")
+            self.fresh = set()
+            return
+        before = set(self.t)
+        super().apply(op)
+        self.fresh = set(p for p in self.fresh if p in self.t) | set(p for p in self.t if p not in before)
+
+    def live_past(self):
+        """present, stored in older containers only (nothing at this path was created in the current patch)"""
+        return sorted(p for p in self.past if p in self.t and p not in self.fresh)
+
+    def dead_past(self):
+        """existed at an earlier boundary, absent now (deleted in an older container or in the current patch)"""
+        return sorted(p for p in self.past if p not in self.t)
+
+    def dead_cut(self):
+        """the same, only the paths that were themselves named by the deletion (not those that went with an ancestor)"""
+        return sorted(p for p in self.past if p not in self.t and p in self.cut)
+
+
+def gen_relocate(rng):
+    """copy / move between the current patch and the past. First one to three older containers are filled (long paths,
+    so that intermediate groups exist only implicitly; some nodes deleted or replaced again, in the same or in a later
+    container). Then rounds of: new material in the current patch (again mostly through longer paths, sometimes
+    attributes on it, sometimes next to old nodes so that their parent group also has a node in the newest container),
+    one to three copy / move operations whose SOURCE is mostly such a fresh node (dataset, explicit group, implicit
+    intermediate group) and whose DESTINATION mostly has a past: a node stored in older containers only (the
+    operation must then fail as on the plain tree), a path deleted earlier, a path below either, or the path of a node
+    replaced earlier; each followed now and then by an operation on / below the destination, also after one more
+    boundary."""
+    h = Hist()
+    ops = []
+    v = lambda: rand_val(rng)  # noqa: E731
+    npatch = [0]
+
+    def emit(op):
+        if op[0] == "patch":
+            if npatch[0] >= 6:
+                return
+            npatch[0] += 1
+        if op[0] == "move" and is_pre(op[1], op[2]):
+            op = ["copy"] + op[1:]
+        if op[0] == "copy" and h.size() > 40:
+            return
+        h.apply(op)
+        ops.append(op)
+
+    def ex():
+        return sorted(p for p in h.t if p != "/")
+
+    def deep():
+        # a long path, now and then below a top-level key of its own: several groups come into being implicitly
+        segs = [rng.choice(L1 + ["n", "n"])] + [rng.choice(ks) for ks in (L2, L3, L4)]
+        return "/" + "/".join(segs[: rng.choice([2, 3, 3, 4])])
+
+    for _ in range(rng.choice([1, 1, 2, 2, 3])):
+        for _ in range(rng.randrange(1, 5)):
+            r = rng.random()
+            e = ex()
+            if r < 0.45 or not e:
+                emit(["set", rand_path(rng, 3, 0.02), v()])
+            elif r < 0.6:
+                emit(["grp", rand_path(rng, 3, 0.02)])
+            elif r < 0.7:
+                emit(["sattr", rng.choice(e), rng.choice(AKEYS), v()])
+            else:
+                emit(["del", rng.choice(e)])
+        emit(["patch"])
+    for _ in range(rng.choice([1, 1, 2, 3])):
+        for _ in range(rng.randrange(1, 4)):
+            r = rng.random()
+            fr = sorted(h.fresh)
+            pa = h.live_past() + h.dead_past()
+            if r < 0.45:
+                emit(["set", deep(), v()])
+            elif r < 0.6:
+                emit(["grp", rand_path(rng, 3, 0.02)])
+            elif r < 0.75 and fr:
+                emit(["sattr", rng.choice(fr), rng.choice(AKEYS), v()])
+            elif r < 0.9 and pa:  # a sibling of a node with a past
+                q = parent(rng.choice(pa))
+                emit(["set", (q if q != "/" else "") + "/" + rng.choice(["n", "m"]), v()])
+            elif ex():
+                emit(["del", rng.choice(ex())])
+        for _ in range(rng.randrange(1, 4)):
+            fr, e = sorted(h.fresh), ex()
+            if not e:
+                break
+            frg = [p for p in fr if h.t[p] == "G"]
+            src = (rng.choice(frg) if frg and rng.random() < 0.6 else rng.choice(fr)) if fr and rng.random() < 0.8 else rng.choice(e)
+            live, dead, cut = h.live_past(), h.dead_past(), h.dead_cut()
+            r = rng.random()
+            if r < 0.2 and live:
+                dst = rng.choice(live)
+            elif r < 0.65 and dead:
+                dst = rng.choice(cut) if cut and rng.random() < 0.7 else rng.choice(dead)
+            elif r < 0.8 and live + dead:
+                dst = rng.choice(live + dead) + "/" + rng.choice(L2)
+            else:
+                dst = rand_path(rng, 3, 0.02)
+            q = parent(dst)
+            if q != "/" and h.t.get(q) == "G" and q not in h.fresh and rng.random() < 0.4:
+                # the destination's parent gets a node in the newest container first (a new sibling or an attribute)
+                emit(rng.choice([["set", q + "/" + rng.choice(["n", "m"]), v()], ["sattr", q, rng.choice(AKEYS), v()]]))
+            emit([rng.choice(["copy", "move"]), src, dst])
+            if rng.random() < 0.5:
+                if rng.random() < 0.3:
+                    emit(["patch"])
+                emit(rng.choice([["set", dst + "/" + rng.choice(L2), v()], ["sattr", dst, rng.choice(AKEYS), v()], ["del", dst],
+                                 ["grp", dst + "/a/y"], ["set", dst, v()]]))
+        if rng.random() < 0.7:
+            emit(["patch"])
+    return ops
+
+
 def enum_small():
     """all histories of length <= 3 over {a,b}-paths of depth <= 2 with set/grp/del/sattr/dattr/boundary"""
     import itertools
@@ -737,6 +878,9 @@ def gen_cases(ctx, quick=None):
     # dense histories on a single attribute / a single name
     for i in range(80 if quick else 2000):
         cases.append(dict(ops=gen_focus(rng)))
+    # copy / move of nodes of the current patch onto / below paths with a past in older containers
+    for i in range(130 if quick else 3000):
+        cases.append(dict(ops=gen_relocate(rng)))
     return cases
 
 
@@ -758,10 +902,12 @@ def run(ctx):
     _tmp_root()
     ctx.rule = ("cases: operation histories (set-dataset, create-group, delete, set-attr, del-attr, copy, move, commit+create-patch boundary) over "
                 "paths of depth <= 4 on 2-3 colliding keys per level (+ exotic printable-ASCII keys), values and attribute values from int64 / uint8 / bool scalars, strings (also empty and non-alphanumeric), 1-d and 2-d int arrays, opaque scalars of width 1-3 around the deletion marker (the marker itself excluded: C17), opaque arrays and the null dataspace, 0-6 boundaries at random positions, with the "
-                "shapes named by the property spliced in as templates, plus dense short histories on one attribute / one name (set, overwrite, remove, boundary in every order). Each history is applied to a real IH5Record and a real h5py.File in lock-step; "
+                "shapes named by the property spliced in as templates, plus dense short histories on one attribute / one name (set, overwrite, remove, boundary in every order), "
+                "plus copy / move histories between the current patch and the past (source mostly a node of the current patch, also a group that exists only implicitly as intermediate group of a longer path; "
+                "destination mostly a node stored in older containers only, a path deleted or replaced in an earlier or the current patch, or a path below one; the destination's parent with and without a node in the newest container; follow-up operations on the destination, also after a further boundary). Each history is applied to a real IH5Record and a real h5py.File in lock-step; "
                 "after every step outcome and full dump are compared (oracle) and both are compared with the Lean models (drv_ov). "
                 "Non-trivial = tagged: replace-then-touch across >=3 containers, delete-then-create-below, attrs on nodes of older containers, "
-                "copy into own subtree, copy/move with missing destination parents, >=3 containers, failing operations per kind.")
+                "copy into own subtree, copy/move with missing destination parents, copy/move of a node of the current patch to a path deleted in an older container / onto a node of an older container (refused), >=3 containers, failing operations per kind.")
     ctx.assumptions += [
         "h5py/HDF5 implements the flat tree semantics of Model/Tree.Spec (checked on every step: the plain h5py.File is one side of the lock-step and is compared with the Spec model)",
         "moving a node into its own subtree or onto itself is outside the operation alphabet (HDF5 detaches the subtree; h5py returns silently for source == dest)",
@@ -783,6 +929,7 @@ def run(ctx):
     # chunk with oracle hits (the verdict is a VIOLATION anyway and hanging operations are costly)
     smoke = [dict(ops=[list(o) for o in template(ctx.rng)] + [["patch"], ["set", "/c/x/y", "i1"]]) for _ in range(24)]
     smoke += [dict(ops=gen_focus(ctx.rng)) for _ in range(40)]
+    smoke += [dict(ops=gen_relocate(ctx.rng)) for _ in range(16)]
     batches = [smoke] + [cases[i : i + 400] for i in range(0, len(cases), 400)]
     cases = smoke + cases
     for b in batches:
